@@ -38,6 +38,30 @@ def cases(tier, rng, dist):
         yield {"n": n, "x": x, "cl": rng.choice(CLS), "alt": rng.choice(list(CALT)), "p": rng.choice([None, None, "0", "1/2", "1", "x/n", "1/1000"]),
                "kw": rng.choice([None, None, {"xtol": 1e-10}, {"rtol": 1e-10}, {"maxiter": 200}, {"xtol": 1e-13, "maxiter": 500}]),
                "ntype": rng.choice([None, "int64", "int32", "uint16", "int64"])}
+    yield from big_cases(tier, rng)
+
+
+def big_cases(tier, rng):
+    """large samples with the count at an end of the range: the limit lies within 2^-10 of 0 or 1, far from any
+    user-supplied starting point (the result must not depend on it, and must exist)"""
+    for _ in range(40 if tier == "quick" else 300):
+        n = rng.choice([3000, 5000, 8000, 20000]); x = rng.choice([0, 1, 2, n - 2, n - 1, n])
+        yield {"n": n, "x": x, "cl": rng.choice(["1/2", "19/20", "99/100"]), "alt": rng.choice(list(CALT)),
+               "p": rng.choice([None, "0", "1/4", "1/2", "3/4", "1", "1/1000"]), "kw": None, "big": True}
+
+
+def tails_big(n, x, p):
+    """exact (P(X>=x), P(X<=x)) for x within a few units of 0 or n: only the short side is summed"""
+    q = 1 - p
+    def low(k):      # P(X <= k), k small
+        if k < 0: return Fraction(0)
+        return sum(math.comb(n, j) * p**j * q**(n - j) for j in range(k + 1))
+    def high(k):     # P(X >= k), n - k small
+        if k > n: return Fraction(0)
+        return sum(math.comb(n, j) * p**j * q**(n - j) for j in range(k, n + 1))
+    if x <= n - x:
+        return 1 - low(x - 1), low(x)
+    return high(x), 1 - high(x + 1)
 
 
 def call(c, p="use", kw="use"):
@@ -54,6 +78,11 @@ def call(c, p="use", kw="use"):
 
 def run(c):
     out = {}
+    if c.get("big"):
+        out["r"] = list(call(c))
+        if c["p"] is not None:
+            out["plain"] = list(call(c, p=None, kw=None))
+        return out
     if c.get("warm"):
         out["warm"] = list(call(c, p=None, kw=c["warm"]))
     r = call(c)
@@ -89,6 +118,7 @@ def oracle(c, o):
     if not (0 <= L <= U <= 1):
         return {"why": f"limits out of order: {L}, {U}", "cls": "binom_conf_interval:order"}
     want_low = c["alt"] != "upper" and x > 0; want_upp = c["alt"] != "lower" and x < n
+    tails = tails_big if c.get("big") else globals()["tails"]
     if not want_low and L != 0.0: return {"why": f"lower limit {L} should be 0", "cls": "binom_conf_interval:trivial-lower"}
     if not want_upp and U != 1.0: return {"why": f"upper limit {U} should be 1", "cls": "binom_conf_interval:trivial-upper"}
     if want_low:
@@ -122,7 +152,7 @@ def oracle(c, o):
 
 def to_coq(c, o):
     r = o["r"]
-    if r[0] != "ok": return None
+    if r[0] != "ok" or c.get("big"): return None      # (big cases: exact tails are checked by the oracle only)
     L, U = r[1]
     if not (0 <= L <= 1 and 0 <= U <= 1): return None
     p1, p2 = brackets(L); q1, q2 = brackets(U)
